@@ -63,6 +63,31 @@ type renv struct {
 	cleanup []func()
 	before  map[string]int
 	peers   []*hpeer
+	// probes: the reactor's ordinary entry points, exercised after hostile input from a fresh well-behaved peer p
+	// (already connected); generic ones (connect, disconnect) are added by probe()
+	probes func(p *hpeer) []probe
+}
+
+// benign delivers a message that is fine by every rule, from a well-behaved peer: hostile input from somebody else
+// must not make it block or blow up.
+func (e *renv) benign(what string, ch byte, p *hpeer, b []byte) probe {
+	return probe{"Receive(" + what + ") from a well-behaved peer", func() { e.r.Receive(ch, p, b) }}
+}
+
+// probe checks that the reactor still completes its ordinary entry points.
+func (e *renv) probe(t failer) {
+	var p *hpeer
+	must(t, e.name+": InitPeer+AddPeer for a new connection (Switch.addPeer)", func() { p = e.addPeer(false) })
+	if e.probes != nil {
+		runProbes(t, e.name, e.probes(p))
+	}
+	must(t, e.name+": reading the node's own state", func() { e.own() })
+	must(t, e.name+": RemovePeer (Switch.StopPeerGracefully)", func() { e.sw.StopPeerGracefully(p) })
+}
+
+// closeChecked stops everything; a stop that hangs is a wedge too.
+func (e *renv) closeChecked(t failer) {
+	quietly(t, e.name+": stopping the reactor (peers removed, Reactor.Stop)", e.close)
 }
 
 func (e *renv) addPeer(outbound bool) *hpeer {
@@ -124,11 +149,19 @@ type knownAlloc struct {
 // runHostile feeds n generated messages to the reactor of e from one peer (re-connecting under a new identity when
 // the peer gets dropped) and applies the oracles after every message.
 func runHostile(t *rapid.T, test string, e *renv, outbound bool, n int, gen func(p *hpeer) rmsg, known *knownAlloc) (kinds []string, hostileValid int) {
-	p := e.addPeer(outbound)
+	connect := func() (p *hpeer) {
+		must(t, e.name+": InitPeer+AddPeer for a new connection (Switch.addPeer)", func() { p = e.addPeer(outbound) })
+		return
+	}
+	own := func() (s string) {
+		must(t, e.name+": reading the node's own state", func() { s = e.own() })
+		return
+	}
+	p := connect()
 	for i := 0; i < n; i++ {
 		m := gen(p)
 		kinds = append(kinds, m.kind)
-		before := e.own()
+		before := own()
 		o := deliver(t, e.sw, e.r, m.ch, p, m.b, e.name+"/"+m.kind)
 		cls := outcomeClass(o)
 		lib.Class(test, e.name+":"+m.kind+"=>"+cls, fmt.Sprintf("msg-valid:%v", m.valid))
@@ -145,12 +178,14 @@ func runHostile(t *rapid.T, test string, e *renv, outbound bool, n int, gen func
 					e.name, len(m.b), m.kind, m.items, m.ch, o.alloc, e.capOf(m.ch))
 			}
 		}
-		after := e.own()
+		after := own()
 		if !m.mayChange && after != before {
 			t.Fatalf("%s reactor: node's own state changed by %s (valid=%v):\nbefore %s\nafter  %s", e.name, m.kind, m.valid, before, after)
 		}
 		if e.inv != nil {
-			if bad := e.inv(); bad != "" {
+			var bad string
+			must(t, e.name+": reading the node's own state", func() { bad = e.inv() })
+			if bad != "" {
 				t.Fatalf("%s reactor: after %s: %s", e.name, m.kind, bad)
 			}
 		}
@@ -160,9 +195,11 @@ func runHostile(t *rapid.T, test string, e *renv, outbound bool, n int, gen func
 			}
 		}
 		if o.dropped || !p.BaseService.IsRunning() {
-			p = e.addPeer(outbound)
+			p = connect()
 		}
 	}
+	// liveness: whatever was sent, the reactor still serves everybody else
+	e.probe(t)
 	return
 }
 
@@ -207,6 +244,8 @@ type mempoolLike interface {
 	Size() int
 	SizeBytes() int64
 	ReapMaxTxs(int) types.Txs
+	Lock()
+	Unlock()
 }
 
 func newMempoolEnv(t failer, version string, mcfg *cfg.MempoolConfig) *renv {
@@ -265,6 +304,13 @@ func newMempoolEnv(t failer, version string, mcfg *cfg.MempoolConfig) *renv {
 			return fmt.Sprintf("the mempool holds %d txs / %d bytes (limits %d / %d)", len(txs), total, mcfg.Size, mcfg.MaxTxsBytes)
 		}
 		return ""
+	}
+	e.probes = func(p *hpeer) []probe {
+		return []probe{
+			e.benign("Txs with one transaction the application rejects", mempool.MempoolChannel, p, wrap(&protomem.Txs{Txs: [][]byte{[]byte("!probe")}})),
+			{"Mempool.Lock/Unlock (what consensus does around every commit)", func() { mp.Lock(); mp.Unlock() }},
+			{"Mempool.ReapMaxTxs / Size (what the proposer does)", func() { mp.ReapMaxTxs(-1); mp.Size() }},
+		}
 	}
 	return e
 }
@@ -349,6 +395,7 @@ func genTxsMsg(t *rapid.T, mcfg *cfg.MempoolConfig, capacity int) rmsg {
 
 func TestHostileMempool(t *testing.T) {
 	rapid.Check(t, func(t *rapid.T) {
+		newCase()
 		version := rapid.SampledFrom([]string{"v0", "v1"}).Draw(t, "version")
 		mcfg := cfg.DefaultMempoolConfig()
 		mcfg.Version = version
@@ -358,8 +405,10 @@ func TestHostileMempool(t *testing.T) {
 		mcfg.CacheSize = rapid.SampledFrom([]int{0, 10, 10000}).Draw(t, "cache")
 		e := newMempoolEnv(t, version, mcfg)
 		defer func() {
-			e.close()
-			checkNoLeak(t, e.before, e.name)
+			e.closeChecked(t)
+			if !wedged() {
+				checkNoLeak(t, e.before, e.name)
+			}
 		}()
 		capacity := e.caps[mempool.MempoolChannel]
 		n := rapid.IntRange(2, 12).Draw(t, "nmsgs")
@@ -398,6 +447,12 @@ func newEvidenceEnv(t failer, nBlocks int) (*renv, *lib.Chain, *evidence.Pool) {
 			s += fmt.Sprintf(" %X", ev.Hash()[:4])
 		}
 		return s
+	}
+	e.probes = func(p *hpeer) []probe {
+		return []probe{
+			e.benign("empty EvidenceList", evidence.EvidenceChannel, p, mustMarshal(&tmproto.EvidenceList{})),
+			{"Pool.PendingEvidence / Pool.State / Pool.Size (what block production does)", func() { pool.PendingEvidence(-1); pool.State(); pool.Size() }},
+		}
 	}
 	return e, ch, pool
 }
@@ -470,10 +525,13 @@ func genEvidenceMsg(t *rapid.T, ch *lib.Chain) rmsg {
 
 func TestHostileEvidence(t *testing.T) {
 	rapid.Check(t, func(t *rapid.T) {
+		newCase()
 		e, ch, _ := newEvidenceEnv(t, rapid.IntRange(2, 4).Draw(t, "blocks"))
 		defer func() {
-			e.close()
-			checkNoLeak(t, e.before, e.name)
+			e.closeChecked(t)
+			if !wedged() {
+				checkNoLeak(t, e.before, e.name)
+			}
 		}()
 		n := rapid.IntRange(2, 10).Draw(t, "nmsgs")
 		kinds, hv := runHostile(t, "TestHostileEvidence", e, false, n, func(p *hpeer) rmsg { return genEvidenceMsg(t, ch) }, nil)
@@ -501,6 +559,13 @@ func newBlockchainEnv(t failer, nBlocks int, fastSync bool) (*renv, *lib.Chain) 
 	e.own = func() string {
 		st, _ := ch.StateStore.Load()
 		return fmt.Sprintf("store=%d/%d state=%d app=%X", ch.BlockStore.Base(), ch.BlockStore.Height(), st.LastBlockHeight, st.AppHash)
+	}
+	e.probes = func(p *hpeer) []probe {
+		return []probe{
+			e.benign("StatusRequest", bcv0.BlockchainChannel, p, wrap(&bcproto.StatusRequest{})),
+			e.benign("StatusResponse with the node's own range", bcv0.BlockchainChannel, p, wrap(&bcproto.StatusResponse{Base: ch.BlockStore.Base(), Height: ch.Tip()})),
+			e.benign("BlockRequest for a stored block", bcv0.BlockchainChannel, p, wrap(&bcproto.BlockRequest{Height: 1})),
+		}
 	}
 	return e, ch
 }
@@ -551,11 +616,14 @@ func genBlockchainMsg(t *rapid.T, ch *lib.Chain) rmsg {
 
 func TestHostileBlockchain(t *testing.T) {
 	rapid.Check(t, func(t *rapid.T) {
+		newCase()
 		fast := rapid.Bool().Draw(t, "fastsync")
 		e, ch := newBlockchainEnv(t, rapid.IntRange(1, 4).Draw(t, "blocks"), fast)
 		defer func() {
-			e.close()
-			checkNoLeak(t, e.before, e.name)
+			e.closeChecked(t)
+			if !wedged() {
+				checkNoLeak(t, e.before, e.name)
+			}
 		}()
 		n := rapid.IntRange(2, 12).Draw(t, "nmsgs")
 		kinds, hv := runHostile(t, "TestHostileBlockchain", e, false, n, func(p *hpeer) rmsg { return genBlockchainMsg(t, ch) }, nil)
@@ -599,9 +667,12 @@ func statesyncPresizes() bool {
 		e, r, _ := newStatesyncEnv(tfail{nil})
 		defer e.close()
 		p := e.addPeer(false)
-		r.VerifC17BeginSync(&failingProvider{})
-		r.Receive(statesync.SnapshotChannel, p, wrap(&ssproto.SnapshotsResponse{Height: 9, Format: 1, Chunks: 1 << 20, Hash: b32(1)}))
-		o := measured(func() { _, _, _ = r.VerifC17FinishSync() })
+		var o recvOutcome
+		bounded(tfail{nil}, "statesync probe", func() {
+			r.VerifC17BeginSync(&failingProvider{})
+			r.Receive(statesync.SnapshotChannel, p, wrap(&ssproto.SnapshotsResponse{Height: 9, Format: 1, Chunks: 1 << 20, Hash: b32(1)}))
+			o = measured(func() { _, _, _ = r.VerifC17FinishSync() })
+		})
 		presizes = o.alloc > allocBound(e.caps[statesync.SnapshotChannel])
 	})
 	return presizes
@@ -627,6 +698,14 @@ func newStatesyncEnv(t failer) (*renv, *statesync.Reactor, string) {
 	e.own = func() string {
 		st, _ := ch.StateStore.Load()
 		return fmt.Sprintf("store=%d state=%d app=%X", ch.BlockStore.Height(), st.LastBlockHeight, st.AppHash)
+	}
+	e.probes = func(p *hpeer) []probe {
+		return []probe{
+			e.benign("SnapshotsRequest", statesync.SnapshotChannel, p, wrap(&ssproto.SnapshotsRequest{})),
+			e.benign("ChunkRequest", statesync.ChunkChannel, p, wrap(&ssproto.ChunkRequest{Height: 1, Format: 1, Index: 0})),
+			// what node.startStateSync does; with nothing advertised and no discovery time it returns at once
+			{"Reactor.Sync (the node starting a state sync)", func() { _, _, _ = r.Sync(&failingProvider{}, 0) }},
+		}
 	}
 	return e, r, dir
 }
@@ -689,15 +768,18 @@ func genStatesyncMsg(t *rapid.T, syncing bool) rmsg {
 
 func TestHostileStatesync(t *testing.T) {
 	rapid.Check(t, func(t *rapid.T) {
+		newCase()
 		e, r, dir := newStatesyncEnv(t)
 		defer func() {
-			e.close()
-			checkNoLeak(t, e.before, e.name)
+			e.closeChecked(t)
+			if !wedged() {
+				checkNoLeak(t, e.before, e.name)
+			}
 		}()
 		syncing := rapid.Bool().Draw(t, "syncing")
 		prov := &failingProvider{}
 		if syncing {
-			r.VerifC17BeginSync(prov)
+			must(t, "statesync: Reactor.Sync, first half (installing the syncer)", func() { r.VerifC17BeginSync(prov) })
 		}
 		n := rapid.IntRange(2, 12).Draw(t, "nmsgs")
 		maxChunks := 0
@@ -713,16 +795,9 @@ func TestHostileStatesync(t *testing.T) {
 			// node's own start-up goroutine: a panic there is process death, so is running out of memory.
 			pooled := r.VerifC17SnapshotCount()
 			var o recvOutcome
-			done := make(chan struct{})
-			go func() {
-				defer close(done)
+			bounded(t, fmt.Sprintf("statesync: Reactor.Sync, second half (SyncAny over %d advertised snapshots)", pooled), func() {
 				o = measured(func() { _, _, _ = r.VerifC17FinishSync() })
-			}()
-			select {
-			case <-done:
-			case <-time.After(receiveWait):
-				t.Fatalf("VERIF-INFRA: SyncAny over %d hostile snapshots did not return in %v\n%s", pooled, receiveWait, allStacks())
-			}
+			})
 			if o.panicked {
 				t.Fatalf("PROCESS DEATH: state sync goroutine panicked over hostile snapshots: %v", o.panicVal)
 			}
@@ -808,6 +883,12 @@ func newPexEnv(t failer, seedMode, strict bool) (*renv, pex.AddrBook, *pex.React
 		}
 		return fmt.Sprintf("honest-entries=%d other-entries=%d", kept, book.Size()-own-kept)
 	}
+	e.probes = func(p *hpeer) []probe {
+		return []probe{
+			e.benign("a first PexRequest", pex.PexChannel, p, wrap(&tmp2p.PexRequest{})),
+			{"AddrBook.Size / GetSelection / PickAddress (what the dial routine does)", func() { book.Size(); book.GetSelection(); book.PickAddress(50) }},
+		}
+	}
 	return e, book, r
 }
 
@@ -864,13 +945,16 @@ func genPexMsg(t *rapid.T, p *hpeer) rmsg {
 
 func TestHostilePex(t *testing.T) {
 	rapid.Check(t, func(t *rapid.T) {
+		newCase()
 		seedMode := rapid.Bool().Draw(t, "seedmode")
 		strict := rapid.Bool().Draw(t, "strict")
 		outbound := rapid.Bool().Draw(t, "outbound")
 		e, book, r := newPexEnv(t, seedMode, strict)
 		defer func() {
-			e.close()
-			checkNoLeak(t, e.before, e.name)
+			e.closeChecked(t)
+			if !wedged() {
+				checkNoLeak(t, e.before, e.name)
+			}
 		}()
 		n := rapid.IntRange(2, 12).Draw(t, "nmsgs")
 		solicited := map[p2p.ID]bool{}
